@@ -99,6 +99,26 @@ class DataLoggerRun:
             self.dc.add_data_set(ds)
             self.sets.append((ds, fmt, types, sub))
             self.expected[ds.name] = []
+        # the configuration API may also replace or remove data sets before recording starts
+        for _ in range(ch.pick("cfg.reconf", 3)):
+            how = ch.choose("cfg.reconf_how", ["replace", "remove_add", "remove"])
+            i = ch.pick("cfg.reconf_i", len(self.sets))
+            old, fmt, types, sub = self.sets[i]
+            if how == "remove" and len(self.sets) > 1:
+                self.dc.rm_data_set(old.name)
+                del self.sets[i]
+                del self.expected[old.name]
+                old.close()
+                self.res.probes["dataset_removed"] += 1
+                continue
+            fmt2 = self.forced.get("formatter") or ch.choose("cfg.fmt2", ["raw", "json", "quicklogger"])
+            ds2 = DSM.DataSet("coll", old.name, "", old.name, fm[fmt2], sub, types, md)
+            if how == "remove_add":
+                self.dc.rm_data_set(old.name)
+            self.dc.add_data_set(ds2)
+            old.close()
+            self.sets[i] = (ds2, fmt2, types, sub)
+            self.res.probes["dataset_replaced"] += 1
         self.res.config = dict(write_period=self.write_period, p_switch=list(self.sched.p_switch),
                                sets=[(fmt, ["ALL" if t == ALL else t for t in types], sub)
                                      for (_d, fmt, types, sub) in self.sets], forced=self.forced)
